@@ -150,10 +150,10 @@ def check_batch(o):
                     r = tag + ": raised %s: %s" % (type(e).__name__, str(e)[:100])
                 if r:
                     bad.append((r, {"edges": c["E"], "mode": c["mode"], "bias": c["bias"]}, None))
-            # the same samples carried far from the origin (a large common offset, a whole number so that float32 holds it exactly):
+            # the same samples carried far from the origin (a large common offset):
             # the precision does not see an offset, in either storage, in either number type
             if sparse:
-                far = data + 262144.0
+                far = data + 262144.37          # (not a float32 number: rounding the SAMPLES to single precision would cost two digits)
                 ref = None
                 for sp2 in (False, True):
                     for dt2 in (np.float64, np.float32):
